@@ -35,6 +35,28 @@ def canon_model(events, toks):
     return [ri.canon_model_token(t, is_sorted_step(e)) for e, t in zip(events, toks)]
 
 
+def merge_tokens(a, b):
+    items = parse_items(a) + parse_items(b)
+    items.sort(key=lambda x: x[0])
+    return "+".join("%d:%s" % x for x in items) if items else "-"
+
+
+def hide_unobservable(name, events, mt):
+    """'close-' histories: what the bus addresses to a connection that wrote a burst and closed at once cannot be read by
+    anybody.  Returns (model tokens without those items, the removed items per step as tokens)."""
+    vis, hid = list(mt), ["-"] * len(mt)
+    if name.startswith("close-"):
+        for i, j, k in ri.close_groups(events):
+            for n in range(i, min(j, len(mt))):
+                items = parse_items(mt[n])
+                keep = [x for x in items if x[0] != k]
+                gone = [x for x in items if x[0] == k]
+                if mt[n] not in ("-", "!"):
+                    vis[n] = "+".join("%d:%s" % x for x in keep) if keep else "-"
+                    hid[n] = "+".join("%d:%s" % x for x in gone) if gone else "-"
+    return vis, hid
+
+
 def run_model(exe, cases):
     lines = ["hist %s %s" % (cfg_str(cfg), " ".join(ev)) for _, cfg, ev in cases]
     res, crashes = vlib.run_lines(exe, lines)
@@ -53,7 +75,7 @@ def run_impl(daemon, cases, nproc=None):
     nproc = nproc or min(16, os.cpu_count() or 4)
     groups = {}
     for i, (name, cfg, ev) in enumerate(cases):
-        groups.setdefault(cfg, []).append((i, ev, name.startswith("pipe")))
+        groups.setdefault(cfg, []).append((i, ev, "close" if name.startswith("close-") else name.startswith("pipe")))
     chunks = []
     for cfg, hs in groups.items():
         # timed histories are wall-clock bound: one or two per daemon so that they sleep concurrently
@@ -198,9 +220,17 @@ def run_check(ctx, prop_id, cases, own_codes, nontrivial_classes, correspondence
                       {"cfg": list(cfg), "histories": [" ".join(h) for h in hists], "stderr": err})
     itoks = [(x[0] if x and x[0] is not None else None) for x in impl]
     valid = [i for i in range(len(cases)) if itoks[i] is not None and mtoks[i] and not mtoks[i][0].startswith("?")]
-    otoks, ocr = run_oracle(model_exe, [cases[i] for i in valid], [itoks[i] for i in valid])
+    # the oracle judges the OBSERVED behaviour; the unobservable part of a burst-and-close (errors to the closed sender) is
+    # completed from the model
+    mvis, completed = {}, {}
+    for i in valid:
+        mt = canon_model(cases[i][2], mtoks[i])
+        vis, hid = hide_unobservable(cases[i][0], cases[i][2], mt)
+        mvis[i] = vis
+        completed[i] = [merge_tokens(t, h) if h != "-" else t for t, h in zip(itoks[i], hid + ["-"] * len(itoks[i]))]
+    otoks, ocr = run_oracle(model_exe, [cases[i] for i in valid], [completed[i] for i in valid])
     oracle = dict(zip(valid, otoks))
-    dist, nontrivial, steps_total, tainted, disagreements, illformed, pipelined = {}, set(), 0, 0, 0, 0, 0
+    dist, nontrivial, steps_total, tainted, disagreements, illformed, pipelined, burst_bytes = {}, set(), 0, 0, 0, 0, 0, 0
     for i, (name, cfg, ev) in enumerate(cases):
         replay = {"cfg": list(cfg), "events": ev, "name": name,
                   "how": "python3 tools/check.py %s --replay <this file>  (or: hist/oracle lines of build/ml/routing/model)" % prop_id}
@@ -217,8 +247,9 @@ def run_check(ctx, prop_id, cases, own_codes, nontrivial_classes, correspondence
         if notes.get("tainted"):
             tainted += 1
             continue                      # machine too slow for the timing assumption even after retries: no verdict
-        mt = canon_model(ev, mtoks[i])
+        mt = mvis[i]
         it = itoks[i]
+        burst_bytes += notes.get("burst_bytes", 0)
         oc = oracle[i]
         if "!" in mt:
             illformed += 1
@@ -261,4 +292,4 @@ def run_check(ctx, prop_id, cases, own_codes, nontrivial_classes, correspondence
             rep.violation("model and implementation agree but break the specification at step %d `%s` -> `%s`: %s" % (j, ev[j], it[j], CODE_TEXT.get(c, c)),
                           dict(replay, impl=it, model=mt, oracle=oc, step=j))
     return {"cases": cases, "dist": dist, "nontrivial": nontrivial, "steps": steps_total, "tainted": tainted,
-            "disagreements": disagreements, "illformed": illformed, "pipelined": pipelined, "mtoks": mtoks, "itoks": itoks, "oracle": oracle}
+            "disagreements": disagreements, "illformed": illformed, "pipelined": pipelined, "burst_bytes": burst_bytes, "mtoks": mtoks, "itoks": itoks, "oracle": oracle}
